@@ -56,13 +56,16 @@ def decoder_subjects(ctx, quick):
     S += c06corpus.lzip_subjects(rng, quick, 2 if quick else 10)
     S += c06corpus.block_index_subjects(rng, quick, 2 if quick else 12)
     S = [s for s in S if s["kind"] == "dec"]
+    S += c06corpus.mt_big_subjects(rng, quick)
     # memory limits: tiny, exactly what the input needs, one byte less, ample
     HAS_LIMIT = ("stream_decoder", "stream_decoder_mt", "auto_decoder", "alone_decoder", "lzip_decoder", "index_decoder",
                  "file_info_decoder")
     out = []
     for s in S:
-        s = dict(s, args=dict(s["args"]), alloc=True)
+        s = dict(s, args=dict(s["args"]), alloc=not s.get("mtbig"))
         out.append(s)
+        if s.get("mtbig"):
+            continue
         if s["entry"] in HAS_LIMIT and "memlimit" not in s["args"] and rng.random() < (0.5 if quick else 1.0):
             for lim in rng.sample(["exact", "exact-1", 1, 1 << 16], 2 if quick else 4):
                 t = dict(s, args=dict(s["args"], memlimit=lim), cls=s["cls"] + ":memlimit=" + str(lim))
@@ -79,6 +82,12 @@ def c04_plans(s, ctx, sym, quick):
     bounds = [b for b in bounds if 0 < b < n]
     mt = s["entry"].endswith("_mt")
     P = []
+    if s.get("mtbig"):
+        # input arriving over time in pieces smaller than the Block (workers run between the calls); the bulk at once and
+        # the last bytes one at a time followed by a stalled caller (no new input, no output space), then the rest
+        return [{"k": "pieces", "size": 1024, "pause": 0.0003}, {"k": "pieces", "size": 4096, "pause": 0.0005},
+                {"k": "tail", "tail": 200, "n": 40}, {"k": "tail", "tail": rng.randint(2, 60), "n": 40},
+                {"k": "lists", "ins": [n // 2, ("S", 40)], "outs": [], "irep": 8192}]
     if n <= 3000 and (s.get("cap") or 0) <= 9000:
         P.append({"k": "byte1", "z": rng.choice((0, 3)), "rec": n <= 48, "xw": True})
     else:
